@@ -38,6 +38,9 @@ CHECKS = {
  "C08": dict(technique="static analysis: exact-length closure and validator must-pass rules over enumerated decode paths, symbolic encode∘decode composition with a table of inverse library pairs, component-wise Clone check, public-key derivation terms",
    text="For every HasKey impl (6 backends x 5 kinds): decode is closed by the kind's exact width, encode(decode(b)) = b symbolically (no canonicalising/truncating decoder), each success path passes the key type's validating constructor, Ed25519 secret decoders re-derive and compare the public half, manual Clone impls are component-wise, public_key() is the scheme's public key of that secret and equals the embedded half. One known finding (D7: libsodium public keys are length-checked only) is listed in known_findings.json.",
    ref="DESIGN.md §4 C08"),
+ "C14": dict(technique="static analysis: writer/reader member-table extraction (def-use origins + dominators over Serialize, byte-trie reconstruction from all MIR paths of visit_bytes, per-arm local/field mapping in visit_map) and single-call transparency rule for the Json<T> wrappers",
+   text="Decides the structural clause only: the Serialize impl and the hand-written Deserialize visitor of RegisteredClaims implement the same bijection between the 7 member names and the 7 fields, absent fields emit nothing, duplicate checks test the assigned local and name the same member, member names are read through deserialize_identifier (escaped names reach visit_str), values are requested at the field's own type, unknown members are consumed as IgnoredAny; Json<T>/RegisteredClaims payload and footer encode/decode are one serde_json call on the whole wrapped value/input with the result passed through, empty footer rejected. RFC 3339/nanosecond fidelity and escaping are jiff's/serde_json's contracts and are not decided.",
+   ref="DESIGN.md §4 C14"),
  "C13": dict(technique="static analysis: symbolic hash_key terms vs specification and siblings, plumbing terms of KeyId::from / Key::id, std-op census of comparison impls, shared text-form and re-encoding rules",
    text="hash_key of all 6 backends equals the specified digest construction (and siblings agree), ids are computed over the key's own canonical text via expose_key(), the re-encoding equals the supplied encoding, id text is a strict 33-byte mirror form, Eq/Ord/Hash/Clone use only the id bytes, lid/pid/sid headers are distinct.",
    ref="DESIGN.md §4 C13"),
